@@ -45,12 +45,14 @@ SameBag(s, t) == /\ Len(s) = Len(t)
 (*   bin, args (seq), envmode ("default" | "provided"), envs (provided entries), start,      *)
 (*   penv (the caller's environment), cwd (Unset | dir), pcwd, uid/gid (UnsetId | id),      *)
 (*   puid/pgid, pg (UnsetId | 0), io (1..3 -> "inherit"|"null"|"pipe"|"raw")                *)
-(*   envAlt: further admissible environments for env = "default" (see notes/C13.md: a      *)
-(*   std-linked build with `start` never initialises tiny-std's environment pointer)        *)
+(*   envAlt: further admissible environments: for env = "default" see notes/C13.md (a      *)
+(*   std-linked build with `start` never initialises tiny-std's environment pointer); for   *)
+(*   provided entries with a repeated key the API text does not say whether both entries    *)
+(*   are passed on, the last or the first wins - all three readings are admitted            *)
 WantArgv(c) == <<c.bin>> \o c.args
 WantEnvs(c) == IF c.envmode = "default"
                THEN (IF c.start THEN {c.penv} ELSE {<< >>}) \cup c.envAlt
-               ELSE {c.envs}
+               ELSE {c.envs} \cup c.envAlt
 WantCwd(c)  == IF c.cwd = Unset THEN c.pcwd ELSE c.cwd
 WantUid(c)  == IF c.uid = UnsetId THEN c.puid ELSE c.uid
 WantGid(c)  == IF c.gid = UnsetId THEN c.pgid ELSE c.gid
